@@ -73,6 +73,9 @@ type c04In struct {
 	RAnn      []string    `json:"rann,omitempty"`
 	RTrailers [][2]string `json:"rtrailers,omitempty"`
 
+	Conc  *c04Conc  `json:"conc,omitempty"`  // kind conc: see c04_conc.go
+	Relay *c04Relay `json:"relay,omitempty"` // kind relay: see c04_relay.go
+
 	Fails         int  `json:"fails,omitempty"`
 	FailAfterRead bool `json:"fail_after_read,omitempty"`
 	Retry         bool `json:"retry,omitempty"`
@@ -843,9 +846,19 @@ func c04RunWire1(in *c04In) (Result, bool) {
 	if rerr != nil {
 		direct = "client could not read the relayed body: " + rerr.Error()
 	}
+	bh := c04Lines(in.RHdr)
+	if in.RCL {
+		bh["Content-Length"] = []string{fmt.Sprint(in.RBodyLen)} // what the backend sets itself
+	}
+	cchunked := false
+	for _, te := range resp.TransferEncoding {
+		if te == "chunked" {
+			cchunked = true
+		}
+	}
 	term := cApp("CWire", c04S(in.Method), cN(uint64(len(body))), cBool(in.Chunked), c04S(s.Method), cN(uint64(len(s.Body))), c04FirstDiff(body, s.Body),
-		cZ(s.CL), c04Bresp(in.RStatus, c04Lines(in.RHdr), in.RAnn, c04Lines(in.RTrailers)), cN(uint64(len(rb))), cN(uint64(resp.StatusCode)),
-		cN(uint64(len(got))), c04FirstDiff(rb, got), c04Hdr(resp.Header), c04Hdr(resp.Trailer))
+		cZ(s.CL), c04Bresp(in.RStatus, bh, in.RAnn, c04Lines(in.RTrailers)), cN(uint64(len(rb))), cN(uint64(resp.StatusCode)),
+		cN(uint64(len(got))), c04FirstDiff(rb, got), c04Hdr(resp.Header), c04Hdr(resp.Trailer), cBool(cchunked))
 	obs := map[string]interface{}{"up_len": len(s.Body), "up_cl": s.CL, "up_chunked": s.Chunked, "status": resp.StatusCode, "len": len(got), "header": resp.Header, "trailer": resp.Trailer}
 	class := "wire:cl"
 	if in.Chunked {
@@ -899,6 +912,10 @@ func c04Run(in0 interface{}) Result {
 		return c04RunProxy(in)
 	case "wire":
 		return c04RunWire(in)
+	case "conc":
+		return c04RunConc(in)
+	case "relay":
+		return c04RunRelay(in)
 	}
 	panic("bad kind " + in.Kind)
 }
@@ -1172,9 +1189,9 @@ func c04PickInt(r *Rand, xs []int) int { return xs[r.Intn(len(xs))] }
 
 func c04Gen(r *Rand, tier string) []interface{} {
 	var out []interface{}
-	nProxy, nWire, nKey, nRepl, nMatch := 2600, 90, 250, 150, 200
+	nProxy, nWire, nKey, nRepl, nMatch, nConc, nRelay := 2600, 90, 250, 150, 200, 40, 60
 	if tier == "thorough" {
-		nProxy, nWire, nKey, nRepl, nMatch = 26000, 900, 2500, 1500, 2000
+		nProxy, nWire, nKey, nRepl, nMatch, nConc, nRelay = 26000, 900, 2500, 1500, 2000, 400, 600
 	}
 	// helper functions: exhaustive small enumerations + random
 	for _, a := range []string{"", "/", "a", "/a", "a/", "/a/", "//", "/a//"} {
@@ -1212,9 +1229,24 @@ func c04Gen(r *Rand, tier string) []interface{} {
 		}
 		out = append(out, in)
 	}
+	// the heavier cases (whole bodies inside Coq, child processes) are spread evenly over the proxy
+	// cases, so that they land in different Coq shards
+	var heavy []interface{}
+	for i := 0; i < nRelay; i++ {
+		heavy = append(heavy, c04GenRelay(r, i))
+	}
+	for i := 0; i < nConc; i++ {
+		heavy = append(heavy, c04GenConc(r, i))
+	}
+	every := nProxy / (len(heavy) + 1)
 	for i := 0; i < nProxy; i++ {
 		out = append(out, c04GenProxy(r))
+		if every > 0 && i%every == every-1 && len(heavy) > 0 {
+			out = append(out, heavy[0])
+			heavy = heavy[1:]
+		}
 	}
+	out = append(out, heavy...)
 	var wires []*c04In
 	for i := 0; i < nWire; i++ {
 		wires = append(wires, c04GenWire(r, i))
